@@ -18,6 +18,9 @@ pub struct Case {
     /// call history: the same pose is first put to this other robot (answers ignored)
     #[serde(default)]
     pub other: Option<RobotSpec>,
+    /// the pose is handed over in the other quaternion representative (-q, the same rotation)
+    #[serde(default)]
+    pub neg_q: bool,
 }
 
 pub const WRIST_MARGIN: f64 = 0.01;
@@ -81,10 +84,11 @@ impl Property for C02 {
             prop_oneof![3 => robot_catalogue(DofChoice::Six), 5 => robot_realistic(DofChoice::Six), 2 => robot_negative(DofChoice::Six), 2 => robot_zeroed(DofChoice::Six)],
             prop_oneof![8 => joints_uniform(), 1 => joints_wide()],
             other_robot(DofChoice::Six, false),
+            prop::bool::weighted(0.25),
         )
-            .prop_map(|(robot, j, other)| {
+            .prop_map(|(robot, j, other, neg_q)| {
                 let other = resolve_other(&robot, other, false);
-                Case { robot, j, other }
+                Case { robot, j, other, neg_q }
             })
             .boxed()
     }
@@ -99,7 +103,11 @@ impl Property for C02 {
         }
         let k = opw(r);
         let pose = r.fk(&c.j);
-        let na = to_na(&pose);
+        let mut na = to_na(&pose);
+        if c.neg_q {
+            na.rotation = nalgebra::UnitQuaternion::new_unchecked(-na.rotation.into_inner());
+            ctx.class("pose handed over as -q");
+        }
         if let Some(o) = &c.other {
             let ko = opw(o);
             let _ = no_panic(|| ko.inverse(&na)).map_err(|m| viol!("inverse never panics", "other robot: {}", m))?;
